@@ -79,7 +79,7 @@ func checkC14(c *Ctx) {
 	r.Rule("C14.virtual-isolated", "K2", "insertCandidate edits only compLine/compCursor; compLine points to a fresh copy of the real line, compCursor is a new cursor on it at the real position", 5)
 	{
 		for i, call := range callsTo(IC, false, editCalls...) {
-			recv := call.Common().Args[0]
+			recv := hostVal(call.Common().Args[0], IC)
 			ok := isFieldLoad(recv, compT, "compLine") || isFieldLoad(recv, compT, "compCursor")
 			r.CallSites++
 			r.Check(ok, "C14.virtual-isolated", siteKey(IC, "edit:"+calleeName(call), i), p.IPos(call), "receiver is the virtual line/cursor",
